@@ -4,6 +4,8 @@
 package pipe
 
 import (
+	"bytes"
+	"compress/gzip"
 	"encoding/hex"
 	"errors"
 	"fmt"
@@ -15,6 +17,7 @@ import (
 	"sort"
 	"sync"
 	"sync/atomic"
+	"syscall"
 	"time"
 
 	"rare/cmd/helpers"
@@ -38,6 +41,7 @@ type Source struct {
 	Name    string `json:"name"`
 	Stream  string `json:"stream_hex"`
 	Missing bool   `json:"missing,omitempty"` // files mode: the path does not exist
+	Gz      bool   `json:"gz,omitempty"`      // files mode with Gunzip: the file holds the gzip encoding of the stream
 	Script  []Step `json:"script,omitempty"`  // reader mode
 }
 
@@ -52,6 +56,7 @@ type Config struct {
 	Ignore    []string `json:"ignore"`
 	DelaySeed uint64   `json:"delay_seed"`
 	HoldAll   bool     `json:"hold_all"` // consumer keeps every match and re-reads it after GC
+	Gunzip    bool     `json:"gunzip,omitempty"` // files mode: -z (gzip files are decoded, plain files are read as they are)
 }
 
 type MatchObs struct {
@@ -196,6 +201,9 @@ var DissectOracles = map[string]string{
 // ---------- scripted reader ----------
 var ErrInjected = errors.New("injected read error")
 
+// the identity of an injected failure varies with its position (any non-EOF error is a read error)
+var errKinds = []error{ErrInjected, io.ErrUnexpectedEOF, io.ErrClosedPipe, io.ErrNoProgress, io.ErrShortBuffer, syscall.EIO}
+
 type scriptReader struct {
 	script    []Step
 	stream    []byte
@@ -240,7 +248,7 @@ func (r *scriptReader) Read(p []byte) (int, error) {
 		return n, io.EOF
 	default:
 		r.failed = true
-		return n, ErrInjected
+		return n, errKinds[(r.pos+len(r.script))%len(errKinds)]
 	}
 }
 func (r *scriptReader) Close() error { return nil }
@@ -293,6 +301,13 @@ func build(cfg Config, sources []Source, dir string) (*built, error) {
 			p := filepath.Join(dir, s.Name)
 			if !s.Missing {
 				bs, _ := hex.DecodeString(s.Stream)
+				if s.Gz && cfg.Gunzip {
+					var zb bytes.Buffer
+					zw := gzip.NewWriter(&zb)
+					zw.Write(bs)
+					zw.Close()
+					bs = zb.Bytes()
+				}
 				if err := os.WriteFile(p, bs, 0o644); err != nil {
 					return nil, err
 				}
@@ -301,7 +316,7 @@ func build(cfg Config, sources []Source, dir string) (*built, error) {
 			names <- p
 		}
 		close(names)
-		b.batcher = batchers.OpenFilesToChan(names, false, cfg.Readers, cfg.Batch, cfg.Buffer)
+		b.batcher = batchers.OpenFilesToChan(names, cfg.Gunzip, cfg.Readers, cfg.Batch, cfg.Buffer)
 	}
 	var ignore extractor.IgnoreSet
 	if len(cfg.Ignore) > 0 {
